@@ -81,6 +81,8 @@ def make(kind, seed):
     rng = np.random.default_rng(seed)
     if kind == "static":
         return mici.samplers.StaticMetropolisHMC(system, integrator, rng, n_step=2)
+    if kind == "implicit":      # gradient evaluations inside the fixed-point iterations of an implicit integrator are interrupt sites too
+        return mici.samplers.StaticMetropolisHMC(system, mici.integrators.ImplicitMidpointIntegrator(system, step_size=0.3), rng, n_step=2)
     return mici.samplers.DynamicMultinomialHMC(system, integrator, rng, max_tree_depth=2)
 
 
@@ -135,7 +137,7 @@ def real_interrupt_search(ctx):
     global _R
     bad = 0
     configs = [("static", 2, 0, 4, False, 1), ("static", 3, 3, 3, True, 1), ("multinomial", 2, 0, 3, False, 1), ("static", 2, 2, 3, True, 2),
-               ("static", 3, 0, 5, False, 2), ("static:notrace", 2, 2, 3, True, 1)]      # :notrace = statistics recorded but no trace functions (trace_funcs=[])
+               ("static", 3, 0, 5, False, 2), ("static:notrace", 2, 2, 3, True, 1), ("implicit", 1, 0, 4, False, 1)]      # :notrace = statistics recorded but no trace functions (trace_funcs=[])
     if ctx.thorough:
         configs += [("multinomial", 3, 4, 3, True, 1), ("static", 2, 0, 4, False, 2), ("multinomial", 2, 3, 2, True, 2)]
     for kind, n_chain, n_warm, n_main, memmap, n_process in configs:
@@ -199,6 +201,8 @@ def real_interrupt_search(ctx):
                     if n_process == 1:
                         if not np.all(written[:nw]):
                             probs.append(f"chain {c}: written rows are not a prefix")
+                        if c == n_chain - 1 and k < total_calls - 1 and nw == len(written) and not n_warm:
+                            probs.append(f"the interrupt raised at callback call #{k} of {total_calls} was lost: every row of the last chain was written")
                         if not np.array_equal(tr[:nw], fulltr[c][:nw]):
                             probs.append(f"chain {c}: rows before the interrupt differ from the uninterrupted run")
                     else:
